@@ -368,7 +368,7 @@ def showStats (r : Req) (s : Nat) (recs : List Rec) (impl : String := "") : Stri
   let n := recs.length
   if n = 0 then                        -- no sample recorded: every figure is zero, no counter row
     "D1 n0,0 t0,0,0,0 m0,0,0,0/0,0,0,0 a0:0,0,0,0/0,0,0,0 a1:0,0,0,0/0,0,0,0 a2:0,0,0,0/0,0,0,0 a3:0,0,0,0/0,0,0,0" else
-  let sortedD := (recs.map (·.dur)).mergeSort fun a b => a ≤ b
+  let sortedD := Stats.ascending (recs.map (·.dur))   -- Props/C05Multiset: any correct sort gives this list
   let pk := choosePicks r s recs impl
   let first := pk.first
   let last := pk.last
@@ -625,7 +625,7 @@ def handle (args : List String) (obs : String) : Option Reply := do
       -- C05: the four time figures are the order statistics of the recorded samples' own durations
       (let precU := if r.ss.isNone then r.prec else 0
        let durs := recs.map fun x => RoundLoop.clampTo precU (x.2.1 - x.1)
-       let ts := Stats.timeStats final (durs.mergeSort fun a b => a ≤ b)
+       let ts := Stats.timeStats final (Stats.ascending durs)
        let want := s!"t{ts.fastest},{ts.slowest},{ts.median},{ts.mean}"
        if final ≠ 0 ∧ !(implStats.splitOn " ").contains want then
          ["[C05] fastest / slowest / median / mean are not the smallest, largest, middle (mean of the two middle) and total of the recorded samples' durations divided by the sample size (want " ++ want ++ ")"]
